@@ -148,6 +148,34 @@ def check_design(ctx, d, steps, regmap, memmap, label):
                 ctx.violation('step_multiple-report:' + nm, '%s: report lists %r, the mismatching expected outputs are %r' % (
                     nm, sorted(rep)[:4], sorted(wrong)[:4]), rp)
                 ok = False
+            # a tracer given its wires explicitly -- as a list that names one wire twice, as a tuple, as a set: one trace entry
+            # per wire and step, equal to the default tracer's
+            ios_ = sorted(list(d.block.wirevector_subset((pyrtl.Input, pyrtl.Output))), key=lambda w: w.name)
+            if ios_:
+                shape_ = ctx.rng.choice(['list-with-repeat', 'tuple', 'set'])
+                lst_ = ios_ + [ios_[-1], ios_[0]] if shape_ == 'list-with-repeat' else (tuple(ios_) if shape_ == 'tuple' else set(ios_))
+                ctx.count('wires_to_track', shape_)
+                try:
+                    tr3 = pyrtl.SimulationTrace(wires_to_track=lst_, block=d.block)
+                    sim3 = simcls(tracer=tr3, block=d.block, register_value_map=dict(regmap),
+                                  memory_value_map={m: dict(v) for m, v in memmap.items()})
+                    if simcls is pyrtl.CompiledSimulation and len(steps) > 1 and ctx.rng.random() < 0.7:
+                        sim3.run([dict(s) for s in steps])              # all steps in one call
+                        ctx.count('CompiledSimulation.run', 'batch')
+                    else:
+                        for s in steps:
+                            sim3.step(dict(s))
+                    t3 = {w: list(v) for w, v in tr3.trace.items()}
+                    want3 = {w.name: base_trace[w.name] for w in ios_}
+                    if t3 != want3:
+                        bad_ = sorted(w for w in want3 if t3.get(w) != want3[w])[:1] or sorted(set(t3) ^ set(want3))[:1]
+                        ctx.violation('explicit-tracer:' + nm, '%s with SimulationTrace(wires_to_track=<%s of the inputs and outputs>): trace of %s is %r, '
+                                      'the default tracer gives %r' % (nm, shape_, bad_[0], t3.get(bad_[0]), want3.get(bad_[0])), dict(rp, wires_to_track=shape_))
+                        ok = False
+                except pyrtl.PyrtlError as e:
+                    ctx.violation('explicit-tracer-raises:' + nm, '%s with SimulationTrace(wires_to_track=<%s>) raised PyrtlError: %s' % (nm, shape_, str(e)[:120]),
+                                  dict(rp, wires_to_track=shape_))
+                    ok = False
             # VCD and print_trace decode to the traced values
             buf = io.StringIO()
             sim.tracer.print_vcd(buf, include_clock=ctx.rng.random() < 0.5)
